@@ -780,6 +780,8 @@ func (env *SpecEnv) evalCall(x *SExpr) Val {
 		return mkStr(app("str_join", v.Terms[2], v.Terms[0], t0(1)))
 	case "repeat":
 		return mkStr(app("str_repeat", t0(0), t0(1)))
+	case "chancap":
+		return mkInt(app("chan_cap", t0(0)))
 	case "helptext":
 		env.st.eng.assumptionsUsed["helptext(node) names the text helpOutput(node) yields in the current definition state (assumed unchanged between the compared calls)"] = true
 		return mkStr(app("help_text", t0(0)))
